@@ -1,5 +1,5 @@
 SPECIFICATION Spec
-CONSTANTS Confs = {1, 2}
+CONSTANTS Confs = {1, 2, 3}
           Names = {1, 2}
           MaxOff = 4
           MaxExt = 3
